@@ -139,6 +139,9 @@ def check_tilted_output(oracle, out, segs, full, win, alpha, extra_tol=0.0):
         if None not in candidate_windows(full, win, segs[j]["s_meta"]):
             raise Violation(oracle + ".missing", f"segment {j} (displacement {segs[j]['s_meta']}) lies inside the "
                                                  f"output but produced no field")
+    if len(out.data) >= 2 and any(f.data.size == 1 for f in out.data):
+        # several fields of which one is a single sample cannot be merged (one-element field = constant; known, C03)
+        raise Skip("single_sample_output_field(known)")
     with lentil_call(oracle, "Wavefront.field / .intensity"):
         got = out.field
         inten = out.intensity
